@@ -273,7 +273,14 @@ def run(ctx):
     ctx.ob("C02.NAMES", ah, "label index 0 assigns the hour, 1 the minute (and seconds from its fraction), 2 the second (and microseconds)",
            slots == {0: {"hour", "minute"}, 1: {"minute", "second"}, 2: {"second", "microsecond"}}, construct="_assign_hms slots", detail=str(slots), analysis="must-hold branch facts")
     cv = prog.method(pi.qualname, "_convert", "C02.NAMES")
-    ctx.ob("C02.NAMES", cv, "name tables are matched case-insensitively, every spelling mapping to its entry's index", "dct[v.lower()] = i" in src(cv.node), construct="_convert")
+    idxs = [y.target.elts[0].id for y in walk_local(cv.node) if isinstance(y, ast.For) and isinstance(y.iter, ast.Call) and src(y.iter.func) == "enumerate"
+            and isinstance(y.target, ast.Tuple) and isinstance(y.target.elts[0], ast.Name)]
+    stores_ = [y for y in walk_local(cv.node) if isinstance(y, ast.Assign) and isinstance(y.targets[0], ast.Subscript)]
+    okcv = len(idxs) == 1 and bool(stores_) and all(
+        isinstance(y.targets[0].slice, ast.Call) and isinstance(y.targets[0].slice.func, ast.Attribute) and y.targets[0].slice.func.attr == "lower"
+        and isinstance(y.value, ast.Name) and y.value.id == idxs[0] for y in stores_)
+    ctx.ob("C02.NAMES", cv, "name tables are matched case-insensitively, every spelling mapping to its entry's index", okcv, construct="_convert",
+           detail="" if okcv else "stores: %s" % [src(y) for y in stores_], analysis="FIELD wiring: key .lower(), value the enumerate index")
 
     # ---------------------------------------------------------------- C02.BUILD
     bn = prog.method(ps.qualname, "_build_naive", "C02.BUILD")
